@@ -33,6 +33,9 @@ pub struct Finding {
     pub count: u64,
 }
 
+/// Set when any exploration of this process stopped at its execution budget (see explore.rs).
+pub static BUDGET_HIT: std::sync::atomic::AtomicBool = std::sync::atomic::AtomicBool::new(false);
+
 pub struct Ctx {
     pub prop: String,
     pub tier: Tier,
@@ -311,8 +314,12 @@ impl Ctx {
             cov.insert("traces_validated_against_impl".into(), json!(traces));
         }
         cov.insert("samples".into(), Value::Array(self.samples.lock().unwrap().clone()));
+        let budget_hit = BUDGET_HIT.load(Ordering::SeqCst);
+        if budget_hit {
+            cov.insert("exploration_budget_hit".into(), json!(true));
+        }
         if let Some(e) = *self.exhaustive.lock().unwrap() {
-            cov.insert("exhaustive".into(), json!(e));
+            cov.insert("exhaustive".into(), json!(e && !budget_hit));
         }
         for (k, v) in self.extra.lock().unwrap().iter() {
             cov.insert(k.clone(), v.clone());
